@@ -14,8 +14,9 @@ RULE = ('70% E1 / 30% E2 histories driven to a quiescent state (cycle until '
         'counted) with servers going down/up, removed and re-added (holes in '
         'children), mixed partitions/traits, several affinities, pack and '
         'spread, freeze/work/unfreeze; then one generated probe instance (half '
-        'of them aimed: demand = the exact free room of one up server) is '
-        'submitted and one '
+        'of them aimed: demand = the exact free room of one up server; a '
+        'quarter in the company of two same-shape instances that cannot fit '
+        'in one dimension each) is submitted and one '
         'cycle run. Violation iff the probe is pending although a leaf '
         'server fits it by ground truth (state up, partition, traits, lease '
         'before reboot, declared room in every dimension, true affinity '
@@ -70,7 +71,12 @@ def strategy_case(draw):
     # of the quiescent state (stresses the capacity aggregates of its
     # ancestors: often that server is the only one that fits)
     fit = draw(st.one_of(st.none(), st.integers(0, 15)))
-    return dict(case, probe=probe, probe_fit=fit)
+    # skewed company: two instances of the probe's shape whose demands are
+    # impossible in one dimension each (and incomparable with each other)
+    # are submitted just before the probe - what the cycle learns from their
+    # failures must not rule out the probe
+    skew = draw(st.sampled_from([False, False, False, True]))
+    return dict(case, probe=probe, probe_fit=fit, probe_skew=skew)
 
 
 def strategy(tier):
@@ -157,13 +163,20 @@ def execute(case, stats):
                         for dim, r in enumerate(room)]
                 probe_op[3] = room
                 stats.count('probe_aimed_exact_fit')
+        if case.get('probe_skew') and not e2:
+            for dim in (0, 1):
+                big = list(probe_op)
+                big[3] = list(probe_op[3])
+                big[3][dim] = 10 ** 7
+                sim.apply(big)
+            stats.count('probe_skewed_company')
         names = sim.apply(probe_op)
         probe = names[0] if isinstance(names, list) else names
         if e2:
             sim.refresh_app_decl()
             # label/traits of the probe by the reference assignment matcher
         now = sim.clock.peek()
-        pre = oracles.fits(sim, probe, now + 1) if not e2 else None
+        pre = oracles.fits(sim, probe, now + 1)
         if e2:
             sim.quiescent()
             sim.refresh_app_decl()
@@ -191,8 +204,6 @@ def execute(case, stats):
             stats.count('probe_ineligible')
             return False
         post = oracles.fits(sim, probe, sim.clock.peek())
-        if e2:
-            pre = post
         if pre is not None and post is not None:
             raise Violation(
                 'c02.pending-but-fits',
